@@ -29,6 +29,18 @@ impl Rng {
     pub fn bytes(&mut self, n: usize) -> Vec<u8> {
         (0..n).map(|_| self.next() as u8).collect()
     }
+    pub fn bytes_below(&mut self, n: u64) -> Vec<u8> {
+        let k = self.below(n) as usize;
+        self.bytes(k)
+    }
+    pub fn bytes_range(&mut self, lo: u64, hi: u64) -> Vec<u8> {
+        let k = self.range(lo, hi) as usize;
+        self.bytes(k)
+    }
+    pub fn bytes_pick(&mut self, ns: &[usize]) -> Vec<u8> {
+        let k = *self.pick(ns);
+        self.bytes(k)
+    }
     pub fn fork(&mut self) -> Rng {
         Rng::new(self.next())
     }
